@@ -662,9 +662,15 @@ class ViewMixin:
                     out.append((s2, NONE))
             else:       # units: observe get_images() and get_tables() through the real accessors
                 for (s1, imgs) in self.call_method(s, v, "get_images", [], {}, n):
-                    if not self.is_zlist(s1, imgs):
-                        raise Unsupported(f"{self.loc(n)} get_images() gives {imgs!r}")
-                    it = s1.obj(imgs.ref).data
+                    if self.is_zlist(s1, imgs):
+                        it = s1.obj(imgs.ref).data
+                    else:
+                        items = self.concrete_items(s1, imgs)
+                        if items is None or not all(isinstance(x, VExt) for x in items):
+                            raise Unsupported(f"{self.loc(n)} get_images() gives {imgs!r}")
+                        it = z3.Empty(y["img"].sort())
+                        for x in items:
+                            it = z3.Concat(it, z3.Unit(x.t)) if not z3.eq(it, z3.Empty(y["img"].sort())) else z3.Unit(x.t)
                     for (s2, tl) in self.call_method(s1, v, "get_tables", [], {}, n):
                         for (s3, tt) in self.obs_tables(s2, tl, n):
                             y2 = dict(y)
